@@ -139,6 +139,13 @@ def r2_all_or_nothing(ctx):
         cont = _continue_arm(b, vu[0]) if ok else None
         R.check(ok and cont is not None and b.dominates(cont, vi[0].bb), "C13.R2", "%s:order" % nm, "the subscribe name is inserted only after both names were verified and the unsubscribe method registered", "%s inserts the subscribe method without the successful verification of both names" % nm, "%s:%d" % (b.file, b.lo))
         if ok:
+            # the names that are verified (and, for the second, registered) are this registrar's own subscribe name
+            # (parameter 2) and unsubscribe name (parameter 4): both siblings must agree
+            got = []
+            for ai in (1, 2):
+                la = tr.origins(b, vu[0].args[ai])
+                got.append(sorted({l.detail["idx"] for l in la if l.kind == "param"}))
+            R.check(got == [[2], [4]], "C13.R2", "%s:verifies-own-names" % nm, "the names checked up front are the subscribe (param 2) and unsubscribe (param 4) names", "%s hands parameters %s to verify_and_register_unsubscribe (expected the subscribe name, parameter 2, and the unsubscribe name, parameter 4): a taken subscribe name is not detected before the unsubscribe method is registered, and a free one can be refused" % (nm, got), where(vu[0]))
             l1 = tr.origins(b, vi[0].args[1])
             R.check(bool(l1) and all(l.kind == "param" and l.detail["idx"] == 2 for l in l1), "C13.R2", "%s:inserts-subscribe-name" % nm, "the name inserted is the subscribe name", "%s inserts %s" % (nm, [flow.leaf_str(l) for l in l1]), where(vi[0]))
 
@@ -263,7 +270,40 @@ def r4_dispatch_and_remove(ctx):
     R.check(ok, "C13.R4", "alias:binds-existing-handler", "alias -> the handler currently bound to existing_method", "register_alias does not bind `alias` to the handler looked up under `existing_method`", "%s:%d" % (al.file, al.lo))
 
 
-RULES = [r1_insert_after_verify, r2_all_or_nothing, r3_copy_on_write, r4_dispatch_and_remove]
+
+def r5_not_found_iff_unbound(ctx):
+    """`method not found` is answered exactly when the name is unbound: in the server's dispatcher (RpcService::call) and
+    in the serverless one (Methods::inner_call) every MethodNotFound is built on the None arm of a match taken *directly*
+    on the registry lookup's result - nothing filters the lookup's result by kind, transport or configuration first (a
+    bound name that a configuration cannot serve gets its own error, not -32601)"""
+    F, R = ctx.F, ctx.R
+    n = 0
+    for pat in (r"^<jsonrpsee_server::middleware::rpc::RpcService as jsonrpsee_core::middleware::RpcServiceT>::call$",
+                r"^jsonrpsee_core::server::rpc_module::Methods::inner_call::\{closure#0\}$"):
+        b = F.one(pat)
+        R.fn(b)
+        look = b.calls_to(r"Methods::method_with_name$|Methods::method$")
+        mnf = [(bi, st) for bi, blk in enumerate(b.blocks) if bi in b.reachable and not blk.get("cleanup") for st in blk["st"]
+               if st["s"] == "assign" and st["rv"]["k"] == "agg" and st["rv"].get("variant") == "MethodNotFound"]
+        if not look or not mnf:
+            R.anchor_lost("C13.R5", "registry lookup / MethodNotFound in %s" % b.path)
+            continue
+        none_arms = set()
+        for l in look:
+            for sb, arms, other in flow.switch_on(b, l.dest["l"]):
+                if arms.get("0") is not None:
+                    none_arms.add(arms["0"])
+        for bi, st in mnf:
+            n += 1
+            R.check(any(b.dominates(t, bi) for t in none_arms), "C13.R5", "%s:not-found-only-on-lookup-miss" % fkey(b), "MethodNotFound is answered on the lookup's own None arm", "%s answers `method not found` on a branch that is not the None arm of the registry lookup itself (the lookup's result is filtered or re-decided first): a name that is bound in the module is reported as unknown" % short(b.path), "%s:%d" % (b.file, st["sp"][0]))
+        # and the lookup's Some arm never ends in MethodNotFound
+        filt = b.calls_to(r"Option::<.*>::(filter|and_then|take_if|xor|zip)$")
+        bad = [c for c in filt if any(arg_is_local(b, c.args[0], x) for l in look for x in follow_value(b, l.dest["l"]))]
+        R.check(not bad, "C13.R5", "%s:lookup-result-not-filtered" % fkey(b), "the lookup's result is matched as it is", "%s post-processes the lookup's result with %s before deciding `method not found`" % (short(b.path), sorted({short(c.name()) for c in bad})), where(bad[0]) if bad else None)
+    R.floor("C13.R5", n, 2, "MethodNotFound sites in the two dispatchers")
+
+
+RULES = [r1_insert_after_verify, r2_all_or_nothing, r3_copy_on_write, r4_dispatch_and_remove, r5_not_found_iff_unbound]
 
 LEVEL_TEXT = (
     "For operation histories on one module the property is exactly a statement about which checks dominate which "
